@@ -15,6 +15,7 @@ import (
 	"strconv"
 	"strings"
 	"sync"
+	"time"
 
 	"com.tuntun.rangers/node/src/common"
 	"com.tuntun.rangers/node/src/middleware/db"
@@ -130,7 +131,49 @@ type Result struct {
 	Err     error          // error value returned by the EVM (nil on success)
 	Addr    common.Address // created address (Create only)
 	Panic   interface{}    // non-nil iff a Go panic escaped the EVM; Err/Ret are then meaningless
-	Stack   string         // goroutine stack of the panic
+	// TimedOut: the run was still going when the Watchdog fired and had to be stopped through EVM.Cancel
+	TimedOut bool
+	Stack    string // goroutine stack of the panic
+}
+
+// Watchdog, when > 0, bounds the wall-clock time of one top-level invocation: a run that is still going after
+// that long is stopped through EVM.Cancel and reported with TimedOut. Every run is bounded by its gas, so a
+// harness sets this to a value orders of magnitude above what its largest gas budget can take.
+var Watchdog time.Duration
+
+// guarded runs f (one top-level EVM invocation filling a Result) under the Watchdog. Without a Watchdog it is a
+// plain call. With one, f runs in its own goroutine; if it has not returned in time the EVM is cancelled (which
+// only stops frames that execute >= 1000 instructions) and, should it still not return within a further second,
+// the goroutine is abandoned (it keeps burning a core until the process ends) and TimedOut is reported.
+func guarded(evm *vm.EVM, f func() Result) Result {
+	if Watchdog <= 0 {
+		return f()
+	}
+	done := make(chan Result, 1)
+	go func() {
+		var r Result
+		defer func() {
+			if p := recover(); p != nil {
+				r.Panic = p
+				r.Stack = string(debug.Stack())
+			}
+			done <- r
+		}()
+		r = f()
+	}()
+	select {
+	case r := <-done:
+		return r
+	case <-time.After(Watchdog):
+	}
+	evm.Cancel()
+	select {
+	case r := <-done:
+		r.TimedOut = true
+		return r
+	case <-time.After(time.Second):
+		return Result{TimedOut: true}
+	}
 }
 
 // Panicked reports whether a Go panic escaped.
@@ -148,8 +191,10 @@ func Call(st *account.AccountDB, ctx vm.Context, caller, addr common.Address, in
 		value = new(big.Int)
 	}
 	evm := vm.NewEVMWithNFT(ctx, st, st)
-	res.Ret, res.GasLeft, res.Logs, res.Err = evm.Call(vm.AccountRef(caller), addr, input, gas, value)
-	return res
+	return guarded(evm, func() (r Result) {
+		r.Ret, r.GasLeft, r.Logs, r.Err = evm.Call(vm.AccountRef(caller), addr, input, gas, value)
+		return r
+	})
 }
 
 // Create runs vm.NewEVMWithNFT(ctx, st, st).Create(caller, initcode).
@@ -164,8 +209,10 @@ func Create(st *account.AccountDB, ctx vm.Context, caller common.Address, initco
 		value = new(big.Int)
 	}
 	evm := vm.NewEVMWithNFT(ctx, st, st)
-	res.Ret, res.Addr, res.GasLeft, res.Logs, res.Err = evm.Create(vm.AccountRef(caller), initcode, gas, value)
-	return res
+	return guarded(evm, func() (r Result) {
+		r.Ret, r.Addr, r.GasLeft, r.Logs, r.Err = evm.Create(vm.AccountRef(caller), initcode, gas, value)
+		return r
+	})
 }
 
 // StaticCall runs vm.NewEVMWithNFT(ctx, st, st).StaticCall(caller -> addr): the top-level frame itself is
@@ -178,8 +225,10 @@ func StaticCall(st *account.AccountDB, ctx vm.Context, caller, addr common.Addre
 		}
 	}()
 	evm := vm.NewEVMWithNFT(ctx, st, st)
-	res.Ret, res.GasLeft, res.Logs, res.Err = evm.StaticCall(vm.AccountRef(caller), addr, input, gas)
-	return res
+	return guarded(evm, func() (r Result) {
+		r.Ret, r.GasLeft, r.Logs, r.Err = evm.StaticCall(vm.AccountRef(caller), addr, input, gas)
+		return r
+	})
 }
 
 // RunCode is the one-shot convenience: fresh state, code installed at Contract, called by Origin
